@@ -11,4 +11,4 @@ CONSTANTS
   Enables = {TRUE, FALSE}
   Filters = {0, 1, 2, 3, 4}
   Outs = {"text", "json", "json-file", "sarif", "sarif-file"}
-INVARIANTS FilterAgrees ExitFromKept Emit
+INVARIANTS FilterAgrees ExitFromKept TopAgrees ExitByCell DecidesCell Emit
